@@ -255,7 +255,8 @@ class C04Signals(Machine):
             ckind = rng.pick(["signal", "signal", "signal", "empty", "function",
                               "function", "gauss_noise", "fft_noise", "full_noise"])
             op = {"op": "construct", "slot": rng.randrange(N_SLOTS), "kind": ckind,
-                  "vtype": rng.pick([None, 0, 1, 2, 3, 1, 2])}
+                  "vtype": rng.pick([None, 0, 1, 2, 3, 1, 2]),
+                  "vt_spelling": rng.pick(["enum", "enum", "name", "int"])}
             tb = [b for b in live_b]
             if tb and rng.chance(0.6):
                 op["times_buf"] = rng.pick(tb)
@@ -354,9 +355,16 @@ class C04Signals(Machine):
             raise Skip("buffer empty")
         return self.bufs[i], self.buf_models[i]
 
-    def _vt(self, v):
+    def _vt(self, v, spelling="enum"):
+        """The value type in one of its documented spellings (enum member, its name, its value)."""
         S = self.pyrex.Signal
-        return None if v is None else S.Type(v)
+        if v is None:
+            return None
+        if spelling == "name":
+            return S.Type(v).name
+        if spelling == "int":
+            return int(v)
+        return S.Type(v)
 
     def _store(self, dst, sig, model):
         for i, s in enumerate(self.slots):
@@ -410,7 +418,7 @@ class C04Signals(Machine):
         if n > 1 and np.any(np.diff(np.asarray(times_priv, dtype=float)) <= 0):
             raise Skip("time grids are strictly increasing")
         kind = op["kind"]
-        vt = self._vt(op.get("vtype"))
+        vt = self._vt(op.get("vtype"), op.get("vt_spelling", "enum"))
         mvt = op.get("vtype") or UNDEF
         if kind == "signal":
             if "values_buf" in op:
@@ -827,6 +835,9 @@ class C04Signals(Machine):
                                     "before %s touched another signal" % (i, m.kind, k, fresh[k] if len(fresh) > k
                                                                           else None, exp[k] if len(exp) > k else None,
                                                                           op["op"]))
+            if not isinstance(vtype, self.pyrex.Signal.Type):
+                raise Violation("C04:type-not-normalised",
+                                "slot %d value_type is %r, not a member of Signal.Type" % (i, vtype))
             if int(vtype.value) != int(m.vtype):
                 raise Violation("C04:type-mismatch",
                                 "slot %d value_type %s, model %d after %s"
